@@ -1236,6 +1236,10 @@ func (is *indexSearch) getTSIDsByTagFilterNoRegex(tf *tagFilter) (*uint64set.Set
 }
 
 func (is *indexSearch) getTSIDsByTagFilterWithRegex(tf *tagFilter) (*uint64set.Set, int64, error) {
+	if tf.isAllMatch && !regexpMatchesEverything(tf.value) {
+		return is.getTSIDsByEmptyMatchingRegex(tf)
+	}
+
 	if !tf.isNegative {
 		if tf.isAllMatch {
 			tsids, err := is.getTSIDsByMeasurementName(tf.name)
@@ -1274,6 +1278,36 @@ func (is *indexSearch) getTSIDsByTagFilterWithRegex(tf *tagFilter) (*uint64set.S
 
 	cost := int64(m.Len() + tsids.Len())
 	tsids, err = is.subTSIDSWithTagArray(tsids, m)
+	if err != nil {
+		return nil, math.MaxInt64, err
+	}
+	return tsids, cost, nil
+}
+
+// getTSIDsByEmptyMatchingRegex serves a regexp that accepts the empty string but not every string (eg, /^$/,
+// /^(a)?$/, /^x*$/): the series WITHOUT the tag match, of the others those whose value matches. The series
+// whose value does NOT match are scanned; =~ selects all the other series of the measurement, !~ selects them.
+func (is *indexSearch) getTSIDsByEmptyMatchingRegex(tf *tagFilter) (*uint64set.Set, int64, error) {
+	tsids, err := is.getTSIDsByMeasurementName(tf.name)
+	if err != nil {
+		return nil, math.MaxInt64, err
+	}
+
+	isNegative, match, orSuffixes := tf.isNegative, tf.reSuffixMatch, tf.orSuffixes
+	tf.isNegative = false
+	tf.reSuffixMatch = func(b []byte) bool { return !match(b) }
+	tf.orSuffixes = nil
+	nm, err := is.searchTSIDsByTagFilter(tf)
+	tf.reSuffixMatch, tf.orSuffixes = match, orSuffixes
+	if err != nil {
+		return nil, math.MaxInt64, err
+	}
+
+	cost := int64(nm.Len() + tsids.Len())
+	if isNegative {
+		return nm, cost, nil
+	}
+	tsids, err = is.subTSIDSWithTagArray(tsids, nm)
 	if err != nil {
 		return nil, math.MaxInt64, err
 	}
